@@ -78,11 +78,11 @@ def gen_history(rng, nops):
         if isinstance(t, str):
             return dict(dec[t])
         tag = t[0]
-        if tag in ("add", "sub"):
+        if tag in ("add", "sub", "iadd"):
             a_, b_ = sym(t[1]), sym(t[2])
             out = dict(a_)
             for k, v in b_.items():
-                out[k] = out.get(k, 0.0) + (v if tag == "add" else -v)
+                out[k] = out.get(k, 0.0) + (-v if tag == "sub" else v)
             return out
         if tag in ("mul", "rmul"):
             return {k: v * t[1] for k, v in sym(t[2]).items()}
@@ -96,7 +96,7 @@ def gen_history(rng, nops):
         a = rng.choice(funcs)
         b = rng.choice(funcs)
         w = rng.choice(WEIGHTS)
-        form = rng.randrange(9)
+        form = rng.randrange(10)
         zero = False
         if form == 0:
             e = ["add", a, b]
@@ -116,6 +116,10 @@ def gen_history(rng, nops):
         elif form == 7:
             e = ["mul", 0, a]
             zero = True
+        elif form == 9:
+            # running sum: `total = partial; total += g` with `partial` a composite that stays in use
+            comp = [f_ for f_ in funcs if f_ in dec and len(dec[f_]) >= 1 and f_.startswith("F")]
+            e = ["iadd", rng.choice(comp) if comp else ["add", a, b], b]
         else:
             e = ["add", ["add", a, b], rng.choice(funcs)]
         F = nm("F")
